@@ -703,6 +703,10 @@ fn run_c10(args: &Args) -> ! {
             },
         );
     }
+    let bad = vcore::refper_vectors::selfcheck();
+    if !bad.is_empty() {
+        machinery_error(&format!("refper does not reproduce the repository's externally produced vectors: {}", bad.join("; ")));
+    }
     let mut report = Report::new(args, "model_checking");
     let res = vcore::sweep::sweep("c10", vcore::shard::default_shards(), std::time::Duration::from_secs(60), &[]);
     let mut agg: BTreeMap<String, (u64, Failure)> = BTreeMap::new();
